@@ -1,7 +1,8 @@
 /-
 Driver for C06 (OpenAPI operations): stream
-  doc <id> <n> <ep>*n <version> => <nops> <ops|-> <distinct docs over permutations> <same twice> <perms accepted> <unresolved refs>
-with ops = comma-joined `pathhex;method;opid`, sorted.
+  doc <id> <n> <ep>*n <version> => <nops> <ops|-> <distinct docs over permutations> <same twice> <perms accepted> <unresolved refs> <tags|->
+with ops = comma-joined `pathhex;method;opid:tag+tag`, sorted; tags = the names in the
+document's top-level `tags` array, in document order.
 -/
 import Driver.RouterCommon
 
@@ -25,7 +26,16 @@ def docPathOfRaw (raw : String) : String :=
     | _ => s
   "/" ++ "/".intercalate segs
 
-def opLine (path method opid : String) : String := s!"{hexStr path};{method};{opid}"
+/-- The harness gives endpoint `id` the tags `[]` (id = 3 mod 4) or `["g<id mod 5>"]`. -/
+def tagsOfId (id : Nat) : List String := if id % 4 == 3 then [] else [s!"g{id % 5}"]
+
+/-- `pathhex;method;opid:tag+tag` -/
+def opLine (path method : String) (id : Nat) : String :=
+  s!"{hexStr path};{method};op{id}:{"+".intercalate (tagsOfId id)}"
+
+def dedupSorted : List String → List String
+  | a :: b :: rest => if a == b then dedupSorted (b :: rest) else a :: dedupSorted (b :: rest)
+  | l => l
 
 def handle (line : String) : String :=
   let fs := fields line
@@ -33,26 +43,34 @@ def handle (line : String) : String :=
   match inp with
   | "doc" :: id :: rest =>
     match parseTable rest, impl with
-    | some (raws, [pv]), [inops, iops, idistinct, isame, iperm, iunres] =>
+    | some (raws, [pv]), [inops, iops, idistinct, isame, iperm, iunres, itags] =>
       match SemVer.parse pv with
       | some v =>
         let (k, t, _, err) := registerAll Node.empty raws 0 []
         if err.isSome || k ≠ raws.length then bad id "table-not-accepted-by-model" else
         -- model: the iterator of the trie at this version, visible endpoints only
         let mops := ((Node.iter t (some v)).filter fun x => x.2.2.visible).map fun x =>
-          opLine x.1 x.2.1.toLower s!"op{x.2.2.id}"
+          opLine x.1 x.2.1.toLower x.2.2.id
         let mops := sortStrings mops
-        let model := if mops.isEmpty then "-" else ",".intercalate mops
+        -- the document's top-level tag list: the tags of the published endpoints at this version
+        let mtags := dedupSorted (sortStrings
+          (((Node.iter t (some v)).filter fun x => x.2.2.visible).flatMap fun x => tagsOfId x.2.2.id))
+        let mtagLine := if mtags.isEmpty then "-" else ",".intercalate mtags
+        let model := (if mops.isEmpty then "-" else ",".intercalate mops) ++ " tags=" ++ mtagLine
         -- specification: from the flat list of descriptors
         let sops := (raws.filter fun r => r.visible && decide (Range.Mem v r.range)).map fun r =>
-          opLine (docPathOfRaw r.path) (normMethod r.method).toLower s!"op{r.id}"
+          opLine (docPathOfRaw r.path) (normMethod r.method).toLower r.id
         let sops := sortStrings sops
         let sline := if sops.isEmpty then "-" else ",".intercalate sops
-        let specOk := sline == iops && toString sops.length == inops &&
+        -- … and the tag list names exactly the tags of those operations, each once, sorted
+        let stags := dedupSorted (sortStrings
+          ((raws.filter fun r => r.visible && decide (Range.Mem v r.range)).flatMap fun r => tagsOfId r.id))
+        let stagLine := if stags.isEmpty then "-" else ",".intercalate stags
+        let specOk := sline == iops && toString sops.length == inops && stagLine == itags &&
           idistinct == "1" && isame == "1" && iperm == "1" && iunres == "0"
         let nvis := (raws.filter (·.visible)).length
         let cls := s!"doc-n{if raws.length ≤ 2 then toString raws.length else if raws.length ≤ 5 then "5" else "9"}-ops{if sops.length == 0 then "0" else if sops.length == nvis then "all" else "some"}-{if nvis < raws.length then "hidden" else "allvis"}"
-        out id (model == iops) (b2s specOk) cls "-" model
+        out id (model == iops ++ " tags=" ++ itags) (b2s specOk) cls "-" model
       | none => bad id "parse-version"
     | _, _ => bad id "parse"
   | ["refs", id, _ver, order] =>
